@@ -52,7 +52,7 @@ type guardSite struct {
 	pos   token.Pos
 	pkg   *packages.Package // where cond lives (a helper predicate may live elsewhere)
 	owner *types.Func
-	neg   bool // the document is rejected when cond is false
+	neg   bool        // the document is rejected when cond is false
 	more  []guardSite // further conditions of the same helper: the site stands for their disjunction
 }
 
